@@ -11,6 +11,16 @@ PROPS = {
                             "A complete enumeration over the finite domains is run in addition (bounded tier, exhaustive).",
                 assumptions=[INTS, "enum members are modelled by their index in the real class body (read from the imported module on every run)"],
                 note="trusted: z3/cvc5, the pyvc VC generator, CPython's ast; no scoda callee is assumed"),
+    "C14": dict(level="other", bounded=True, technique="contract-based deductive verification (loop invariants on the real RelativeSequence.transpose, callee contract of Key.transpose_key) + bounded enumeration for the normalise/re-quantise tail",
+                explanation="U: RelativeSequence.transpose (range, pitch class shifted by exactly the interval, flag exact, exact shift of every note that needs no octave move, only note/key fields written, "
+                            "key signatures transposed via the Key.transpose_key contract), Bar.transpose and Sequence.transpose wrappers, for all integer intervals and all message lists. "
+                            "L: transposing back restores. B: the shifted=>normalise+quantise_note_lengths tail (clause e) by enumeration near both range limits.",
+                assumptions=[INTS], note="clause e (after an octave move the sequence is re-normalised and re-quantised) is bounded only"),
+    "C18": dict(level="other", bounded=True, technique="contract-based deductive verification (loop invariants on pad / set_channel / scale, lemmas wsum_mono and wsum_scale by induction) + bounded enumeration for cutoff",
+                explanation="U: RelativeSequence.pad (events untouched, exactly one wait of n - duration appended iff duration < n), set_channel, scale for integer k >= 1 (every wait multiplied by k, nothing else written), "
+                            "L: duration/onsets scale by k (induction lemma). Sequence-level wrappers: protocol obligations (operate on the fresh relative view, invalidate the absolute one). "
+                            "B: cutoff (depends on the pairing function) and the wrappers end-to-end by enumeration with an independent oracle.",
+                assumptions=[INTS], note="cutoff is bounded only (pairing contract not proved)"),
 }
 
 NOT_APPLICABLE = {}
